@@ -5,6 +5,9 @@ regenerated from the source), Model/Packet.lean.
 -/
 import CoapLite.Lemmas.Request
 import CoapLite.Lemmas.MsgMut
+import CoapLite.Lemmas.Shape.Request
+import CoapLite.Lemmas.Shape.Packet
+import CoapLite.Lemmas.Shape.Global
 
 namespace CoapLite.C19
 open CoapLite Spec
@@ -159,5 +162,22 @@ example : (MsgView.mutateOptions { Packet.new with options := [(11, [[1, 2], []]
 example : MsgView.resize0 [1, 2, 3] 5 = [1, 2, 3, 0, 0] ∧ MsgView.resize0 [1, 2, 3] 2 = [1, 2] := by decide
 example : segments "/a//b/".toList = ["a".toList, [], "b".toList, []] := by decide
 example : stripLead "//x".toList = "/x".toList := by decide
+
+/-! ### tie to the source: the state the model carries is the state the code carries
+
+`Shapes.*` (Generated/Shapes.lean) is re-read from /repo/src on every run: the field lists of the
+structs this property's model mirrors, and every construct that introduces state outside the values
+the API passes around (thread-locals, `static mut`, cells, locks, atomics). The model accounts for
+exactly these fields (Lemmas/Shape/*.lean say which model field mirrors which); a field or a
+global added to the code – a memo, a marker, a digest in place of the data – breaks this theorem
+even if no explored input behaves differently. -/
+theorem state_shape_matches_source :
+    Shapes.globalState = [] ∧
+    Shapes.coapRequest = [("message", "Packet"), ("response", "Option<CoapResponse>"), ("source", "Option<Endpoint>")] ∧
+    Shapes.coapResponse = [("message", "Packet")] ∧
+    Shapes.packet = [("header", "Header"), ("token", "Vec<u8>"), ("options", "BTreeMap<u16,LinkedList<Vec<u8>>>"), ("payload", "Vec<u8>")] ∧
+    Shapes.header = [("ver_type_tkl", "u8"), ("code", "MessageClass"), ("message_id", "u16")] ∧
+    Shapes.headerRaw = [("ver_type_tkl", "u8"), ("code", "u8"), ("message_id", "u16")] :=
+  ⟨ShapeTie.no_global_state, ShapeTie.coapRequest, ShapeTie.coapResponse, ShapeTie.packet, ShapeTie.header, ShapeTie.headerRaw⟩
 
 end CoapLite.C19
